@@ -347,3 +347,7 @@ b("C07-b12", "C07", REFTABLE, "        # Write new tables.list with just the con
   "        for name in os.listdir(self.reftable_dir):\n            if name.endswith(\".ref\") and name != new_table_name:\n                os.remove(os.path.join(self.reftable_dir, name))\n\n        with GitFile(tables_list_path, \"wb\") as f:\n            f.write((new_table_name + \"\\n\").encode())\n", "R07.6")
 n("C07-n9", "C07", REFTABLE, "        for name in os.listdir(self.reftable_dir):\n            if name.endswith(\".ref\") and name != new_table_name:\n                os.remove(os.path.join(self.reftable_dir, name))\n",
   "        stale = [name for name in os.listdir(self.reftable_dir) if name.endswith(\".ref\") and name != new_table_name]\n        for name in stale:\n            os.remove(os.path.join(self.reftable_dir, name))\n")
+b("C16-b13", "C16", REFTABLE, "    result = [value & 0x7F]\n    value >>= 7\n    while value > 0:\n        value -= 1\n        result.append(0x80 | (value & 0x7F))\n        value >>= 7\n    return bytes(reversed(result))\n\n\ndef _decode_reftable_suffix_and_type",
+  "    if value < 128:\n        return bytes([value])\n    return bytes([0x80, value - 0x80])\n\n\ndef _decode_reftable_suffix_and_type", "R16.16")
+b("C16-b14", "C16", REFTABLE, "        byte = byte_data[0]\n        value = ((value + 1) << 7) + (byte & 0x7F)\n    return value\n", "        byte = byte_data[0]\n        value = (value << 7) + (byte & 0x7F)\n    return value\n", "R16.16")
+n("C16-n10", "C16", REFTABLE, "        byte = byte_data[0]\n        value = ((value + 1) << 7) + (byte & 0x7F)\n    return value\n", "        byte = byte_data[0]\n        value += 1\n        value <<= 7\n        value += byte & 0x7F\n    return value\n")
